@@ -46,7 +46,8 @@ CHECKS = {
                 'imported with exactly its duration marks, pitch letters, accidental and signifiers and exported as the same text '
                 '(scan-of-print and export-of-canonical theorems shared with C01); non-note tokens are exported as '
                 'their text, the default category set deletes no sub-part, exported sub-parts are a permutation of the note\'s '
-                'sub-parts, separator-free text is identical in all encodings. The grid clauses (same lines minus global '
+                'sub-parts, separator-free text is identical in all encodings; with every spine selected the export body is the grid of '
+                'the stages (one cell per node, in order) minus exactly the empty and the all-null rows (C03_export_is_the_stage_grid). The remaining grid clauses (same lines minus global '
                 'comments and null lines, every cell against the generator\'s own description) are decided by correspondence of '
                 'the importer/exporter model and by the oracle monitor on kernpy. Known findings K2 (hidden barlines) and K3 '
                 '(separator characters inside non-note cells).',
